@@ -262,7 +262,13 @@ class Exec(Interp):
     def spec_eval(self, src, env, old_env=None, module=None, what="spec"):
         """Evaluate a spec expression string to a z3 Bool / value."""
         if callable(src):
-            return src(self, env)
+            prev_old = self.old_env
+            if old_env is not None:
+                self.old_env = old_env
+            try:
+                return src(self, env)
+            finally:
+                self.old_env = prev_old
         try:
             tree = ast.parse(src.strip(), mode="eval")
         except SyntaxError as e:
